@@ -48,8 +48,18 @@ func genHdr(r *core.Rand) [][]string {
 	return h
 }
 
+// Methods of exchanges: mostly the ones verifiers and filters are configured with; now and then any
+// other, CONNECT included (an API request is an API request whatever its method).
+func genMethod(r *core.Rand, api bool) string {
+	if r.Chance(1, 12) || (api && r.Chance(1, 3)) {
+		return pick(r, []string{"CONNECT", "CONNECT", "DELETE", "HEAD", "OPTIONS", "PATCH"})
+	}
+	return pick(r, methods)
+}
+
 func genMsg(r *core.Rand, id int) *msg {
-	m := &msg{api: r.Chance(3, 20), method: pick(r, methods), scheme: pick(r, schemes), host: pick(r, hosts), path: pick(r, paths),
+	api := r.Chance(3, 20)
+	m := &msg{api: api, method: genMethod(r, api), scheme: pick(r, schemes), host: pick(r, hosts), path: pick(r, paths),
 		qry: pick(r, queries), frag: "m" + strconv.Itoa(id), id: id, reqH: genHdr(r), resH: genHdr(r), status: statuses[r.Intn(len(statuses))]}
 	return m
 }
@@ -218,6 +228,25 @@ func genTreeB(r *core.Rand, watch bool) *node {
 	return n
 }
 
+// reconfTree: what a re-POST or a Set*Modifier installs over a tree that has recorded failures: often
+// something one-sided or no verifier at all (the handlers must not keep reading the tree it replaces).
+func reconfTree(r *core.Rand) *node {
+	g := &treeGen{r: r}
+	switch r.Intn(5) {
+	case 0:
+		return &node{typ: "L", scope: "d", leaf: pick(r, []string{"nop", "fail"})}
+	case 1:
+		return &node{typ: "L", scope: "d", leaf: "status", args: []string{"404"}} // response side only
+	case 2:
+		return &node{typ: "L", scope: "d", leaf: "method", args: []string{"PUT"}} // request side only
+	case 3:
+		n := g.node(1)
+		n.scope = pick(r, []string{"q", "s", "e", "d"})
+		return n
+	}
+	return genTree(r)
+}
+
 func treeOp(r *core.Rand, n *node) string {
 	w := "m"
 	if r.Chance(1, 3) {
@@ -240,14 +269,21 @@ func genCase(r *core.Rand, conc bool) []string {
 			ops = append(ops, "q")
 		case x < 92:
 			ops = append(ops, "r")
-		case x < 94:
+		case x < 93:
 			ops = append(ops, "qbad")
-		case x < 96:
+		case x < 94:
 			ops = append(ops, "rbad")
-		case x < 98:
+		case x < 95:
 			ops = append(ops, "r", "q")
 		default:
-			ops = append(ops, treeOp(r, genTree(r)))
+			switch r.Intn(4) {
+			case 0:
+				ops = append(ops, treeOp(r, genTree(r)))
+			case 1, 2:
+				ops = append(ops, "tree r "+strings.Join(reconfTree(r).tokens(), " "), "q")
+			default:
+				ops = append(ops, "set "+r.Pick("q", "s")+" "+strings.Join(reconfTree(r).tokens(), " "))
+			}
 		}
 	}
 	if conc {
@@ -367,6 +403,9 @@ func genE2E(r *core.Rand) []string {
 			m := genMsg(r, id)
 			id++
 			m.api, m.scheme = false, "http"
+			if m.method == "CONNECT" { // a CONNECT on the wire opens a tunnel; it is an exchange of the Modify*-driven tier only
+				m.method = "GET"
+			}
 			if m.path == "" {
 				m.path = "/"
 			}
@@ -386,10 +425,12 @@ func genE2E(r *core.Rand) []string {
 			ops = append(ops, "r")
 		case x < 90:
 			ops = append(ops, "cget")
-		case x < 93:
+		case x < 92:
 			ops = append(ops, "qbad")
-		case x < 96:
+		case x < 94:
 			ops = append(ops, "rbad")
+		case x < 97:
+			ops = append(ops, "tree r "+strings.Join(reconfTree(r).tokens(), " "), "q")
 		default:
 			ops = append(ops, "r", "q")
 		}
